@@ -117,6 +117,30 @@ def parseDec : List Char → Option Rat
     shortest round-trip representation is not modelled, it is assumed to read back as the same number) -/
 def fmtNum (pr : Rat → Tok) (x : Rat) : Tok := if x.den = 1 then fmtInt x.num else pr x
 
+def absR (x : Rat) : Rat := if x < 0 then -x else x
+
+/-- specification: the token is a numeral within `tol` of `x` -/
+def numCloseB (tol x : Rat) (t : Tok) : Bool :=
+  match parseDec t with
+  | some v => decide (absR (v - x) ≤ tol)
+  | none => false
+
+/-- specification: as many numerals as values, each within its tolerance -/
+def closeAll : List Tok → List (Rat × Rat) → Bool
+  | [], [] => true
+  | t :: ts, (x, tol) :: xs => numCloseB tol x t && closeAll ts xs
+  | _, _ => false
+
+/-- specification of a written atom line: same name, same scattering-factor number, every value within its
+    tolerance (`vals` = (value, tolerance) in file order) -/
+def specAtomLine (toks : List Tok) (name : Tok) (sfac : Nat) (vals : List (Rat × Rat)) : Bool :=
+  match toks with
+  | n :: s :: rest => (n == name) && numCloseB 0 (sfac : Rat) s && closeAll rest vals
+  | _ => false
+
+def tolCoord : Rat := 1 / 1000000
+def tolU : Rat := 1 / 100000
+
 /-! ### atoms -/
 
 inductive Val where
@@ -151,8 +175,6 @@ def fieldTexts : List Piece → List Val → List Tok
 
 def renderFmt (fmt : List Piece) (vals : List Val) : Option (List Char) := (chunksOf fmt vals).map renderChunks
 
-def absR (x : Rat) : Rat := if x < 0 then -x else x
-
 /-- the test in `Atom.__str__`: anisotropic iff Σ|u[2:]| > 0.00001 -/
 def isAniso (us : List Rat) : Bool := decide (((us.drop 2).map absR).sum > 1 / 100000)
 
@@ -183,27 +205,33 @@ inductive SfEntry where
   | expl (toks : List Tok)      -- element and the fourteen coefficients, as stored
 deriving Repr, DecidableEq
 
+/-- the collected plain elements are printed as one line -/
+def flushEls (els : List Tok) (out : List (List Tok)) : List (List Tok) := if els = [] then out else out ++ [els]
+
 /-- `SFACTable.__repr__` after the repair: lines as parameter-token lists (each is printed as
     `'SFAC ' + '  '.join(line)`); a repeated plain element takes the explicit branch and raises KeyError (`none`) -/
 def sfacGo : List SfEntry → List Tok → List (List Tok) → Option (List (List Tok))
-  | [], els, out => some (if els = [] then out else out ++ [els])
+  | [], els, out => some (flushEls els out)
   | .plain e :: r, els, out => if e ∈ els then none else sfacGo r (els ++ [e]) out
-  | .expl ts :: r, els, out => sfacGo r [] ((if els = [] then out else out ++ [els]) ++ [ts])
+  | .expl ts :: r, els, out => sfacGo r [] (flushEls els out ++ [ts])
 
 def renderSfac (es : List SfEntry) : Option (List (List Tok)) := sfacGo es [] []
 
 /-- the printer as it was before the repair: the collected values were dropped, an empty element list printed -/
 def sfacGoOld : List SfEntry → List Tok → List (List Tok) → Option (List (List Tok))
-  | [], els, out => some (if els = [] then out else out ++ [els])
+  | [], els, out => some (flushEls els out)
   | .plain e :: r, els, out => if e ∈ els then none else sfacGoOld r (els ++ [e]) out
-  | .expl _ :: r, els, out => sfacGoOld r [] ((if els = [] then out else out ++ [els]) ++ [[]])
+  | .expl _ :: r, els, out => sfacGoOld r [] (flushEls els out ++ [[]])
 
 def renderSfacOld (es : List SfEntry) : Option (List (List Tok)) := sfacGoOld es [] []
 
 def isAlphaC (c : Char) : Bool := (decide (65 ≤ c.toNat) && decide (c.toNat ≤ 90)) || (decide (97 ≤ c.toNat) && decide (c.toNat ≤ 122))
 
-/-- `''.join(spline[1:]).isalpha()` -/
-def allAlpha (ts : List Tok) : Bool := ts.flatten.all isAlphaC && !ts.flatten.isEmpty
+/-- a non-empty word of letters -/
+def isWord (t : Tok) : Bool := t.all isAlphaC && !t.isEmpty
+
+/-- `''.join(spline[1:]).isalpha()` on a list of (non-empty) tokens: at least one token, all of them letters only -/
+def allAlpha (ts : List Tok) : Bool := ts.all isWord && !ts.isEmpty
 
 /-- reader of the SFAC lines of a file: an all-letters line lists elements, any other line is one explicit entry -/
 def readSfac : List (List Tok) → List SfEntry
@@ -276,9 +304,8 @@ def renderSymm (comps : List Tok) : List Char := "SYMM  ".toList ++ joinWith [',
 /-- reader: the operator of a SYMM line = text after the keyword without blanks, split at commas -/
 def normSymm (line : List Char) : List Tok := splitComma ((splitWs line).tail.flatten) []
 
-/-- the written parameter list denotes the same instruction: it starts with the parameters of the input and
-    whatever follows are the defaults of those positions -/
-def SameInstr (defs : List Rat) (tin tout : List Rat) : Prop :=
-  ∃ extra, tout = tin ++ extra ∧ extra = (defs.drop tin.length).take extra.length
+/-- two parameter lists denote the same instruction: they agree once the omitted trailing parameters are filled in
+    with the SHELXL defaults -/
+def SameInstr (defs : List Rat) (tin tout : List Rat) : Prop := withDefaults defs tin = withDefaults defs tout
 
 end Shelx.C01
